@@ -25,11 +25,16 @@ pub struct SubCase {
     pub alias: bool,
     /// the object variables are closures / continuations (chirality cns) instead of data (prd)
     pub cns: bool,
+    /// naming of the new variables: false = the first use of a source keeps the source's identifier,
+    /// copies are fresh (what the linearizer writes); true = the new variable at position j takes the
+    /// identifier of the old variable at position j (an "in-place" substitution such as
+    /// `(a := b)(b := a)`: same names, different sources)
+    pub positional: bool,
 }
 
 impl SubCase {
     pub fn to_json(&self) -> serde_json::Value {
-        json!({"kind": "subst", "arch": self.arch.name(), "off": self.off, "obj": self.obj, "map": self.map, "alias": self.alias, "cns": self.cns})
+        json!({"kind": "subst", "arch": self.arch.name(), "off": self.off, "obj": self.obj, "map": self.map, "alias": self.alias, "cns": self.cns, "positional": self.positional})
     }
     pub fn from_json(v: &serde_json::Value) -> Option<SubCase> {
         Some(SubCase {
@@ -43,6 +48,7 @@ impl SubCase {
             map: v["map"].as_array()?.iter().filter_map(|x| x.as_u64().map(|y| y as usize)).collect(),
             alias: v["alias"].as_bool()?,
             cns: v["cns"].as_bool().unwrap_or(false),
+            positional: v["positional"].as_bool().unwrap_or(false),
         })
     }
 }
@@ -113,7 +119,13 @@ pub fn run_sub(t: &Template, c: &SubCase) -> SubVerdict {
         .map(|(j, s)| {
             // the first use of a source keeps its identifier (as the linearizer does), copies are fresh
             let first = src[..j].iter().all(|x| x != s);
-            let id = if first { old_ctx[*s].var.id } else { 100 + j };
+            let id = if c.positional {
+                if j < old_ctx.len() { old_ctx[j].var.id } else { 100 + j }
+            } else if first {
+                old_ctx[*s].var.id
+            } else {
+                100 + j
+            };
             (binding(old_kinds[*s], id, c.cns), old_ctx[*s].var.clone())
         })
         .collect();
@@ -336,9 +348,9 @@ pub fn enumerate(tier: Tier, mut f: impl FnMut(SubCase)) {
                                 if alias && nobj < 2 {
                                     continue;
                                 }
-                                f(SubCase { arch, off, obj: obj.clone(), map: map.clone(), alias, cns: false });
+                                for positional in [false, true] { f(SubCase { arch, off, obj: obj.clone(), map: map.clone(), alias, cns: false, positional }); }
                                 if nobj > 0 {
-                                    f(SubCase { arch, off, obj: obj.clone(), map: map.clone(), alias, cns: true });
+                                    for positional in [false, true] { f(SubCase { arch, off, obj: obj.clone(), map: map.clone(), alias, cns: true, positional }); }
                                 }
                             }
                         }
@@ -365,9 +377,9 @@ pub fn enumerate(tier: Tier, mut f: impl FnMut(SubCase)) {
                             if alias && pat == 0 {
                                 continue;
                             }
-                            f(SubCase { arch, off, obj: obj.clone(), map: map.clone(), alias, cns: false });
+                            for positional in [false, true] { f(SubCase { arch, off, obj: obj.clone(), map: map.clone(), alias, cns: false, positional }); }
                             if pat != 0 {
-                                f(SubCase { arch, off, obj: obj.clone(), map: map.clone(), alias, cns: true });
+                                for positional in [false, true] { f(SubCase { arch, off, obj: obj.clone(), map: map.clone(), alias, cns: true, positional }); }
                             }
                         }
                     }
@@ -404,7 +416,7 @@ pub fn worker(ctx: &WorkerCtx) -> Report {
                 rep.count("transitions", 1);
                 rep.count("instructions_emulated", insns);
                 rep.count(&format!("ok_{}", c.arch.name()), 1);
-                rep.distinct.push(hash64(&(c.arch.name(), c.off, &c.obj, &c.map, c.alias, c.cns)));
+                rep.distinct.push(hash64(&(c.arch.name(), c.off, &c.obj, &c.map, c.alias, c.cns, c.positional)));
                 let shape = format!(
                     "{}{}{}",
                     if c.map.len() > c.obj.len() { "grow" } else if c.map.len() < c.obj.len() { "shrink" } else { "same" },
